@@ -35,11 +35,6 @@ mod verif_c15 {
             SafeLong(v)
         }
     }
-    impl kani::Arbitrary for BoundsError {
-        fn any() -> Self {
-            BoundsError(())
-        }
-    }
 
     // ---- the constructor's own contract -------------------------------------------------------
 
